@@ -77,7 +77,8 @@ class Engine(EngineBase):
                 "documents / update_cache on growing, shrinking, unchanged workspace; old and new "
                 "content; chunking, threading knob); crash mode enumerates every mutating step x "
                 "{death before, torn prefix classes}; reader mode sweeps every reader position and "
-                "samples random/PCT interleavings. distinct = (target, write kind, fault kind, step "
+                "samples random/PCT interleavings; half of the crash scenarios continue with the next complete "
+                "write after each crash + restart (itself crashed at seeded points near the publishing steps). distinct = (target, write kind, fault kind, step "
                 "kind, observed old|new|absent) tuples and happens-before fingerprints; non-trivial "
                 "= the fault fired or the reader overlapped the write")
 
